@@ -99,6 +99,78 @@ def shared_class_writes():
     return out
 
 
+def _writeline_text(call):
+    """the (unparsed) text argument of a `self.writeline(…)` call, or None"""
+    if (isinstance(call, ast.Call) and isinstance(call.func, ast.Attribute) and call.func.attr == "writeline"
+            and isinstance(call.func.value, ast.Name) and call.func.value.id == "self" and call.args):
+        a = call.args[0]
+        if isinstance(a, ast.Constant) and isinstance(a.value, str):
+            return a.value
+        return ast.unparse(a)
+    return None
+
+
+def local_vars_inits():
+    """where compiler.py writes the per-call dictionaries `_block_vars = {}` / `_loop_vars = {}` that Context.call hands to
+    context-aware callables: [(visitor method, text, [enclosing for/if/while headers inside the method])], and every line
+    visit_Template writes at MODULE level of the generated code (before the root function is opened and after the last
+    block function): nothing mutable may live there, the module is shared by every render of the template."""
+    tree = parse("compiler")
+    cg = find_class(tree, "CodeGenerator")
+    inits = []
+
+    def walk(node, chain, mname):
+        for child in ast.iter_child_nodes(node):
+            if isinstance(child, (ast.FunctionDef, ast.AsyncFunctionDef, ast.Lambda)) and child is not node:
+                continue
+            txt = _writeline_text(child) if isinstance(child, ast.Call) else None
+            if txt is not None and ("_block_vars =" in txt or "_loop_vars =" in txt):
+                inits.append((mname, txt, list(chain)))
+            if isinstance(child, ast.If):
+                for sub in child.body:
+                    walk_stmt(sub, chain + ["if " + ast.unparse(child.test)], mname)
+                for sub in child.orelse:
+                    walk_stmt(sub, chain + ["else of if " + ast.unparse(child.test)], mname)
+                walk(child.test, chain, mname)
+            elif isinstance(child, (ast.For, ast.While)):
+                head = ("for " + ast.unparse(child.target) + " in " + ast.unparse(child.iter)) if isinstance(child, ast.For) \
+                    else "while " + ast.unparse(child.test)
+                for sub in child.body + child.orelse:
+                    walk_stmt(sub, chain + [head], mname)
+            else:
+                walk(child, chain, mname)
+
+    def walk_stmt(st, chain, mname):
+        holder = ast.Module(body=[st], type_ignores=[])
+        walk(holder, chain, mname)
+
+    for m in cg.body:
+        if isinstance(m, ast.FunctionDef):
+            for st in m.body:
+                walk_stmt(st, [], m.name)
+    # module-level lines of visit_Template: every writeline (also inside if/for) in the statements BEFORE the one that opens
+    # the root function, and the top-level writelines after the loop that writes the block functions
+    vt = method(cg, "visit_Template")
+    module_level = []
+    seen_root = False
+    after_blocks = False
+    for st in vt.body:
+        texts = [(_writeline_text(n)) for n in ast.walk(st) if isinstance(n, ast.Call) and _writeline_text(n) is not None]
+        if not seen_root:
+            if any("self.func('root')" in t for t in texts):
+                seen_root = True
+                continue
+            prefix = "" if isinstance(st, ast.Expr) else "[" + type(st).__name__.lower() + "] "
+            module_level += [prefix + t for t in texts]
+        elif isinstance(st, ast.For) and "self.blocks" in ast.unparse(st.iter):
+            after_blocks = True
+        elif after_blocks and isinstance(st, ast.Expr):
+            module_level += texts
+    if not seen_root:
+        raise Untranslatable("visit_Template: the statement opening the root function was not found")
+    return inits, module_level
+
+
 def gen():
     tree = parse("environment")
     tcls = find_class(tree, "Template")
@@ -157,6 +229,13 @@ def gen():
          "-- classes whose instances hang off a cached default module and are therefore shared by all renders on the environment",
          "def sharedObjectSelfWrites : List (String × List String) := " + llist(
              f"\n  ({lstr(c)}, {llist(map(lstr, ws))})" for c, ws in shared_class_writes()) + "\n",
+         "-- READ (compiler.py): every place that writes `_block_vars = …` / `_loop_vars = …` into generated code:",
+         "-- (visitor method, text written, enclosing for/if headers inside the method)",
+         "def localVarsInits : List (String × String × List String) := " + llist(
+             f"\n  ({lstr(m)}, {lstr(t)}, {llist(map(lstr, ch))})" for m, t, ch in local_vars_inits()[0]) + "\n",
+         "-- READ (compiler.py visit_Template): the lines written at module level of the generated code, before the root",
+         "-- function is opened (a module is shared by every render of the template)",
+         "def moduleLevelLinesBeforeRoot : List String := " + llist("\n  " + lstr(x) for x in local_vars_inits()[1]) + "\n",
          "-- READ: render_async and generate_async build their Context from the call's own arguments",
          f"def rendersCreateFreshContext : Bool := {'true' if all(fresh_ctx) else 'false'}\n",
          "end JinjaV.Gen.ModuleProtocol\n"]
